@@ -133,7 +133,7 @@ def with_die_kills(sc: dict, ch: Choices) -> dict:
 def compact_spec(sc: dict) -> dict:
     keep = ('nodes', 'requested', 'backend', 'max_workers', 'cpu_count', 'cof', 'cached', 'bust_cache', 'fail',
             'kills', 'interrupts', 'io_fault', 'inject_line', 'swarm', 's1', 'storage', 'progress', 'line_yield', 'rel_storage',
-            'chdir_nodes', 'coarse_clock', 'emit', 'linger', 'shapes', 'helpers', 'mp_children', 'earlier_call', 'earlier_interrupted')
+            'chdir_nodes', 'coarse_clock', 'emit', 'linger', 'shapes', 'helpers', 'mp_children', 'earlier_call', 'earlier_interrupted', 'caller_thread')
     return {k: sc[k] for k in keep if k in sc and sc[k] not in (None, [], {})}
 
 
@@ -564,6 +564,8 @@ class C16(Check):
         sc = gen_scenario(ch, backends=ALL_BACKENDS, cache='sometimes', fail=1,
                           types=[('TA', 3), ('TB', 2), ('TC', 2), ('TD', 2), ('TN', 2), ('TP', 5), ('TR', 3), ('TF', 5)])
         cfg = ch.stream('config')
+        if cfg.chance(1, 4):
+            sc['caller_thread'] = True      # the calling process has another (idle) thread while it calls run_tasks
         if sc['backend'] in ('fork', 'spawn') and cfg.chance(1, 3):
             # an earlier run of the same interpreter used the other process backend
             sc['prelude'] = {'backend': 'spawn' if sc['backend'] == 'fork' else 'fork', 'max_workers': 2, 'n': 2}
@@ -668,11 +670,21 @@ class C16(Check):
         env = dict(os.environ)
         env['VERIF_REPO'] = REPO_DIR
         env['PYTHONPATH'] = VERIF_DIR
-        for backend_arg in ('serial', 'fork', 'spawn', 'fork+spawn', 'spawn+fork'):
+        for backend_arg in ('serial', 'fork', 'spawn', 'fork+spawn', 'spawn+fork', 'spawn-c', 'fork-c'):
+            # (the '-c' variants: the calling program is `python -c ...`, whose __main__ has no __file__ - as in a REPL
+            # or a notebook kernel - and which keeps an idle helper thread alive while it calls run_tasks)
+            dash_c = backend_arg.endswith('-c')
+            backend_arg = backend_arg[:-2] if dash_c else backend_arg
             backend = backend_arg.split('+')[-1]
-            for mw in (('1', '2', 'none') if tier == 'thorough' else (('2', 'none') if '+' not in backend_arg else ('2',))):
+            for mw in (('1', '2', 'none') if (tier == 'thorough' and not dash_c) else (('2', 'none') if ('+' not in backend_arg and not dash_c) else ('2',))):
+                if dash_c:
+                    cmd = [sys.executable, '-c', 'import sys, threading; e = threading.Event(); '
+                           'threading.Thread(target=e.wait, daemon=True).start(); '
+                           f'from simlab import realprobe; rc = realprobe.main(["realprobe", {backend_arg!r}, {mw!r}]); e.set(); sys.exit(rc)']
+                else:
+                    cmd = [sys.executable, '-m', 'simlab.realprobe', backend_arg, mw]
                 try:
-                    p = subprocess.run([sys.executable, '-m', 'simlab.realprobe', backend_arg, mw], capture_output=True,
+                    p = subprocess.run(cmd, capture_output=True,
                                        text=True, timeout=120, env=env, cwd=VERIF_DIR)
                 except subprocess.TimeoutExpired:
                     vs.append(O.V('C16', 'real-probe-timeout', f'real {backend} run with max_workers={mw} did not finish in 120 s', backend=backend))
